@@ -32,7 +32,7 @@ ASSUMPTIONS = ["per-target expectation = the library's own root merge of indepen
 REACH = [("yamlpath/merger/merger.py", "_insert_dict,_insert_list,_insert_set,_insert_scalar,_get_merge_target_nodes,merge_with,_replace_merge_target", "Merger._insert_* / _get_merge_target_nodes / merge_with"),
          ("yamlpath/merger/mergerconfig.py", "get_insertion_point", "MergerConfig.get_insertion_point")]
 SIZES = {"quick": 30000, "thorough": 800000}
-REQUIRED_COUNTERS = ["rule_at_merge_point_cases", "target_sharing_checked", "merge_key_target_cases", "retyped_equal_rhs_cases", "cli_uncreatable_cases", "traversal_mergeat_cases", "existing_single", "existing_multiple", "created", "uncreatable"]
+REQUIRED_COUNTERS = ["create_under_several_parents_cases", "empty_lhs_cases", "rule_at_merge_point_cases", "target_sharing_checked", "merge_key_target_cases", "retyped_equal_rhs_cases", "cli_uncreatable_cases", "traversal_mergeat_cases", "existing_single", "existing_multiple", "created", "uncreatable"]
 SAMPLE = [("deep", "all", "all", "unique"), ("deep", "unique", "deep", "unique"), ("right", "right", "right", "right"),
           ("left", "left", "left", "left"), ("deep", "right", "unique", "left"), ("right", "all", "deep", "unique")]
 
@@ -323,6 +323,84 @@ def rule_at_merge_point_case(ctx, rng):
             res[0][2], mode, res[1][2])})
 
 
+def create_under_several_parents_case(ctx, rng):
+    """A merge path whose last key(s) are missing under SEVERAL matched parents: each parent gets the path created to hold
+    its own copy of the right-hand document; the other members and everything else stay as they were."""
+    recs = []
+    for i in range(rng.randrange(2, 5)):
+        recs.append("{role: %s, n: %d}" % (rng.choice(["web", "web", "db"]), i))
+    shape = rng.choice(["aoh", "hoh"])
+    ltext = "{hosts: %s, other: [1]}" % ("[%s]" % ", ".join(recs) if shape == "aoh" else "{%s}" % ", ".join("h%d: %s" % (i, r) for i, r in enumerate(recs)))
+    rtext = rng.choice(["{tags: [a]}", "[a, b]", "{k: {j: 1}, l: [1, 2]}", "[{id: 1}]", "{a: 1}"])
+    # (search segments only: whether a path can be created past a `*` is not something the statement settles)
+    sel = rng.choice(["[role=web]", "[n>0]", "[role^w]"]) if shape == "aoh" else rng.choice(["[.^h]", "[.=~/^h/]", "[.!=h0]"])
+    tail = rng.choice([["new"], ["new", "deeper"]])
+    mergeat = "/hosts/%s/%s" % (sel, "/".join(tail))
+    combo = rng.choice(SAMPLE)
+    L = yp.load(ltext)
+    hosts = L["hosts"]
+    members = list(hosts) if shape == "aoh" else list(hosts.values())
+    hit = [m for i, m in enumerate(members) if (sel in ("[.^h]", "[.=~/^h/]")) or (sel == "[.!=h0]" and i > 0)
+           or (sel in ("[role=web]", "[role^w]") and m["role"] == "web") or (sel == "[n>0]" and m["n"] > 0)]
+    if not hit:
+        return
+    rimg = E.strip_anchors(E.image(yp.load(rtext)))
+    want = []
+    for m in members:
+        img = E.strip_anchors(E.image(m))
+        if any(m is h for h in hit):
+            sub = rimg
+            for k in reversed(tail[1:]):
+                sub = {"t": "map", "a": None, "items": [[["str", k], sub]]}
+            img["items"].append([["str", tail[0]], sub])
+        want.append(img)
+    case = {"lhs": ltext, "rhs": rtext, "mergeat": mergeat, "policies": combo, "kind": "create-under-several-parents"}
+    ctx.evaluations += 1
+    ctx.counters["create_under_several_parents_cases"] = ctx.counters.get("create_under_several_parents_cases", 0) + 1
+    if len(hit) >= 2:
+        ctx.mark_nontrivial([ltext, rtext, mergeat, combo])
+    m = Merger(LOG, L, MergerConfig(LOG, ns(combo, mergeat)))
+    try:
+        m.merge_with(yp.load(rtext))
+    except (MergeException, YAMLPathException) as e:
+        ctx.violation("merge-error-for-possible-merge/create-under-several-parents", {"case": case, "summary": str(e)[:200]})
+        return
+    except Exception as e:
+        ctx.violation("crash/%s@%s/create-under-several-parents" % (type(e).__name__, C05.where(e)), {"case": case, "summary": repr(e)[:150]})
+        return
+    hosts = m.data["hosts"]
+    got = [E.strip_anchors(E.image(x)) for x in (list(hosts) if shape == "aoh" else list(hosts.values()))]
+    if got != want or E.image(m.data["other"]) != E.image(yp.load("[1]")) or list(m.data.keys()) != ["hosts", "other"]:
+        ctx.violation("differs/create-under-several-parents", {"case": case, "summary": "result %r" % yp.dump(m.data)[:300]})
+
+
+def empty_lhs_case(ctx, rng):
+    """The left-hand document is EMPTY (null): a merge at a path of keys creates that path to hold the right-hand document;
+    a merge at the root makes the document the right-hand document."""
+    rtext = rng.choice(["{a: [1]}", "[a, b]", "{k: {j: 1}}", "[{id: 1}]", "{a: 1, b: x}"])
+    tail = rng.choice([[], ["x"], ["x", "y"], ["x", "y", "z"]])
+    mergeat = "/" + "/".join(tail)
+    combo = rng.choice(SAMPLE)
+    want = E.strip_anchors(E.image(yp.load(rtext)))
+    for k in reversed(tail):
+        want = {"t": "map", "a": None, "items": [[["str", k], want]]}
+    case = {"lhs": "", "rhs": rtext, "mergeat": mergeat, "policies": combo, "kind": "create-in-empty-document"}
+    ctx.evaluations += 1
+    ctx.counters["empty_lhs_cases"] = ctx.counters.get("empty_lhs_cases", 0) + 1
+    ctx.mark_nontrivial(["", rtext, mergeat, combo])
+    m = Merger(LOG, None, MergerConfig(LOG, ns(combo, mergeat)))
+    try:
+        m.merge_with(yp.load(rtext))
+    except (MergeException, YAMLPathException) as e:
+        ctx.violation("merge-error-for-possible-merge/create-in-empty-document", {"case": case, "summary": str(e)[:200]})
+        return
+    except Exception as e:
+        ctx.violation("crash/%s@%s/create-in-empty-document" % (type(e).__name__, C05.where(e)), {"case": case, "summary": repr(e)[:150]})
+        return
+    if E.strip_anchors(E.image(m.data)) != want:
+        ctx.violation("differs/create-in-empty-document", {"case": case, "summary": "result %r" % (yp.dump(m.data)[:300] if m.data is not None else None,)})
+
+
 def cli_uncreatable_case(ctx, rng, workdir):
     """yaml-merge --mergeat on a path that one left-hand document can neither match nor create: the run must fail and
     must not write anything out - also when OTHER left-hand documents of a multi-document file would have merged."""
@@ -372,6 +450,8 @@ def run_shard(ctx):
         if rng.random() < 0.04:
             merge_key_target_case(ctx, rng)
             rule_at_merge_point_case(ctx, rng)
+            create_under_several_parents_case(ctx, rng)
+            empty_lhs_case(ctx, rng)
             continue
         lt = C05.gen_tree(rng, 0, "map")
         if len(lt[1]) < 2:
